@@ -58,6 +58,8 @@ func main() {
 				fmt.Println("  VIOLATION:", v.Message)
 			}
 		}
+	case "replay":
+		os.Exit(replay(os.Args[2]))
 	case "list":
 		for _, u := range checks[os.Args[2]].Units(os.Args[3]) {
 			fmt.Println(u.Name)
